@@ -77,10 +77,10 @@ CHECKS = {
    technique="deterministic simulation with fault enumeration: generated PDU values; connection lost at every byte offset of the encoding (exhaustive <= 8 KiB, sampled above) through read_pdu and through read_pdu_from_wire over a simulated transport; independent PS3.8 parser as oracle",
    text="For each generated PDU (all variants, all user-information sub-items, up to 128 presentation contexts, sub-items up to 70 kB) the real write_pdu output is checked by an independent PS3.8 parser (every length field exact, content equal), read back by read_pdu with trailing bytes untouched, and the transport is cut after every byte offset (exhaustive for encodings <= 8 KiB): every strict prefix must read as incomplete / 'connection closed', never as an error or another PDU. Items that cannot be expressed in a 16-bit length must make write_pdu fail. Strict-mode maximum checked at the boundary.",
    note="Trusted: independent PS3.8 encoder/parser in sim/dcmref. Strings stay inside the documented repertoires (no edge whitespace; AE titles <= 16 chars, compared modulo space padding). Cut offsets above 8 KiB are sampled (first 64, last 16, 432 random)."),
- "C27": dict(level="exploration", engine=ENG_A, design="DESIGN.md §4 C27",
-   technique="deterministic simulation: seeded segmentation/coalescing schedules (1-byte reads, cuts in headers, several PDUs per read, async Pending) of a PDU stream into the real receivers; history oracle: n receives = the n PDUs in order, then closed",
+ "C27": dict(level="exploration", engine=ENG_B, design="DESIGN.md §4 C27",
+   technique="deterministic simulation: seeded segmentation/coalescing schedules (1-byte reads, cuts in headers, several PDUs per read, async Pending) of a PDU stream into the real receivers and, at the libc socket seam, into the four real establish*() bodies followed by receive(); history oracle: n receives = the n PDUs in order, then closed",
    text="Seeded search over PDU sequences (1-8 PDUs of every type) x transport segmentations. The real read_pdu_from_wire / read_pdu_from_wire_async with their persistent read buffer must return exactly the sequence sent, in order, nothing lost or duplicated, and report the connection closed afterwards, under any split/coalescing schedule the seed produces.",
-   note="Level 1 (generic receivers over a simulated source). The sender is the independent PS3.8 encoder. The establish()-time hand-over of leftover bytes (four constructor bodies) is covered by the network-level checks once built; until then that part of C27 is not claimed."),
+   note="Two levels. Level 1: the generic receivers over a simulated source (sender = independent PS3.8 encoder). Level 2 (network simulation at the libc socket seam): the same sequences are sent right behind the A-ASSOCIATE-RQ towards a real acceptor, or right behind the A-ASSOCIATE-AC towards a real requestor, so that leftover bytes exist at the moment establish / establish_async (server and client: four real constructor bodies) hand their read buffer to the association; receive() n times must return the n PDUs, then 'connection closed'."),
  "C26": dict(level="exploration", engine=ENG_A, design="DESIGN.md §4 C26",
    technique="deterministic simulation: seeded PRNG tape drives payload/chunking and a simulated transport (short writes, EINTR, Pending/spurious wake, arbitrary read segmentation); real P-DATA writers/reader; independent PS3.8 framing oracle; tape shrinking + exact replay",
    text="Seeded search over (max PDU length, payload, write chunking) x transport schedules. Every run executes the real PDataWriter / AsyncPDataWriter / PDataReader against a simulated transport whose every short write, EINTR, Pending and read segmentation is drawn from the seed; the bytes the transport accepted are framed by an independent PS3.8 parser (PDU length <= max, one PDV, context, last flag only on the final PDU, payload concatenation), async output must equal sync output, the reader must return exactly the payload and leave following PDUs intact. Sampling, not proof: a clean batch is evidence.",
